@@ -26,6 +26,9 @@ import (
 	"github.com/rpcpool/yellowstone-faithful/blocktimeindex"
 	"github.com/rpcpool/yellowstone-faithful/bucketteer"
 	"github.com/rpcpool/yellowstone-faithful/compactindexsized"
+	deprecatedbucketteer "github.com/rpcpool/yellowstone-faithful/deprecated/bucketteer"
+	"github.com/rpcpool/yellowstone-faithful/deprecated/compactindex"
+	"github.com/rpcpool/yellowstone-faithful/deprecated/compactindex36"
 	"github.com/rpcpool/yellowstone-faithful/gsfa"
 	hugecache "github.com/rpcpool/yellowstone-faithful/huge-cache"
 	"github.com/rpcpool/yellowstone-faithful/indexes"
@@ -44,7 +47,8 @@ import (
 // the answer must be the complete file's answer or an error.
 
 const c13Rule = "case = (file kind, access path, cut offset c = number of leading bytes kept, stored key). " +
-	"File kinds: cid-to-offset-and-size, slot-to-cid, sig-to-cid (typed compact indexes), gsfa pubkey-to-offset-and-size index, gsfa linked log, gsfa manifest, sig-exists, slot-to-blocktime, the CAR. " +
+	"File kinds: cid-to-offset-and-size, slot-to-cid, sig-to-cid (typed compact indexes), gsfa pubkey-to-offset-and-size index, gsfa linked log, gsfa manifest, sig-exists, slot-to-blocktime, the CAR; " +
+	"plus the legacy formats written by the deprecated packages' own builders (compactindex36 slot-to-cid and sig-to-cid, compactindex cid-to-offset, deprecated bucketteer sig-exists; every offset, in-memory ReaderAt through the typed readers' format auto-detection). " +
 	"Access paths: length-limited in-memory io.ReaderAt that behaves like a short file (short count + io.EOF) through indexes.OpenWithReader_*, bucketteer.NewReader, blocktimeindex.FromBytes/FromReader, main.ReadAllFromReaderAt, the Epoch's ReaderAt CAR path and splitcarfetcher.NewSplitCarReader (one piece cut at a time); " +
 	"really truncated copies through indexes.Open_* (os.File), bucketteer.Open (mmap), blocktimeindex.FromFile, gsfa.NewGsfaReader (directory), carv2 local CAR and NewEpochFromConfig (every index role), plus JSON-RPC getBlock/getTransaction/getSignaturesForAddress/getBlockTime through the real handler with one and with two epochs loaded. " +
 	"Cuts: EVERY offset 0..size for files <= 64 KiB (all compact indexes, the three gsfa files, the CAR and each split piece); sig-exists: every offset of the body for lookups on a reader whose open was verified to touch only the header, and a full re-open at every offset within +-2 of each structure boundary (header fields, the prefix-table entry and the bucket of every stored signature) plus every 97th offset (thorough: every offset); " +
@@ -56,9 +60,10 @@ const c13Rule = "case = (file kind, access path, cut offset c = number of leadin
 // ---------- length-limited ReaderAt (short file semantics) ----------
 
 type c13Cut struct {
-	b     []byte
-	limit int64
-	hi    int64 // highest byte position requested so far
+	b        []byte
+	limit    int64
+	hi       int64 // highest byte position requested so far
+	httpLike bool  // short read reports io.ErrUnexpectedEOF (as splitcarfetcher.HTTPSingleFileRemoteReaderAt does) instead of io.EOF
 }
 
 func (c *c13Cut) ReadAt(p []byte, off int64) (int, error) {
@@ -73,6 +78,9 @@ func (c *c13Cut) ReadAt(p []byte, off int64) (int, error) {
 	}
 	n := copy(p, c.b[off:c.limit])
 	if n < len(p) {
+		if c.httpLike {
+			return n, io.ErrUnexpectedEOF
+		}
 		return n, io.EOF
 	}
 	return n, nil
@@ -128,7 +136,11 @@ func c13Frame() string {
 		f, more := fr.Next()
 		if strings.HasPrefix(f.Function, "github.com/rpcpool/yellowstone-faithful") && !strings.Contains(f.Function, "zzverif") &&
 			!strings.Contains(f.File, "zz_verif_") && !strings.Contains(f.File, "/verif/harness/") {
-			return strings.TrimPrefix(f.Function, "github.com/rpcpool/yellowstone-faithful/")
+			fn := strings.TrimPrefix(f.Function, "github.com/rpcpool/yellowstone-faithful")
+			if strings.HasPrefix(fn, ".") {
+				return "main" + fn
+			}
+			return strings.TrimPrefix(fn, "/")
 		}
 		if !more {
 			break
@@ -601,6 +613,264 @@ func (r *c13Run) sectionCompact(w *c13World) {
 				func() (c13Lookup, func(), error) { return c.openFn(p) })
 		}
 		os.Remove(p)
+	}
+}
+
+// ---------- S1b: legacy (deprecated) index formats, written by the deprecated packages' own builders ----------
+
+func (r *c13Run) sectionLegacy(w *c13World) {
+	t := w.A.Truth
+	ctx := context.Background()
+	dir := filepath.Join(r.base, "legacy")
+	os.MkdirAll(dir, 0o755)
+	defer os.RemoveAll(dir)
+	seal := func(name string, f func(out *os.File) error) ([]byte, error) {
+		p := filepath.Join(dir, name)
+		out, err := os.Create(p)
+		if err != nil {
+			return nil, err
+		}
+		if err := f(out); err != nil {
+			out.Close()
+			return nil, err
+		}
+		out.Close()
+		return os.ReadFile(p)
+	}
+	cid36 := func(c cid.Cid) (v [36]byte, err error) {
+		b := c.Bytes()
+		if len(b) != 36 {
+			return v, fmt.Errorf("cid of %d bytes", len(b))
+		}
+		copy(v[:], b)
+		return v, nil
+	}
+	type legacy struct {
+		file  string
+		full  []byte
+		keys  []string
+		empty []string
+		open  func(rd indexes.ReaderAtCloser) (c13Lookup, func(), error)
+		regs  []c13Region
+	}
+	var all []legacy
+	{ // slot-to-cid, compactindex36
+		full, err := seal("legacy-slot-to-cid.index", func(out *os.File) error {
+			tmp := filepath.Join(dir, "tmp-s2c")
+			os.MkdirAll(tmp, 0o755)
+			b, err := compactindex36.NewBuilder(tmp, uint(len(t.Blocks)), 1<<40)
+			if err != nil {
+				return err
+			}
+			defer b.Close()
+			for _, bl := range t.Blocks {
+				v, err := cid36(bl.Cid)
+				if err != nil {
+					return err
+				}
+				if err := b.Insert(indexes.Uint64tob(bl.Slot), v); err != nil {
+					return err
+				}
+			}
+			return b.Seal(ctx, out)
+		})
+		if err != nil {
+			r.R.Internal("legacy slot-to-cid: %v", err)
+			return
+		}
+		l := legacy{file: "legacy-slot-to-cid", full: full, empty: []string{cid.Undef.String()}}
+		for _, b := range t.Blocks {
+			l.keys = append(l.keys, fmt.Sprint(b.Slot))
+		}
+		l.open = func(rd indexes.ReaderAtCloser) (c13Lookup, func(), error) {
+			x, err := indexes.OpenWithReader_SlotToCid(rd)
+			if err != nil {
+				return nil, nil, err
+			}
+			return func(i int) (string, error) {
+				if i < 0 {
+					return fmt.Sprintf("legacy=%v", x.IsDeprecatedOldVersion()), nil
+				}
+				c, err := x.Get(t.Blocks[i].Slot)
+				if err != nil {
+					return "", err
+				}
+				return c.String(), nil
+			}, func() { x.Close() }, nil
+		}
+		all = append(all, l)
+	}
+	{ // sig-to-cid, compactindex36
+		full, err := seal("legacy-sig-to-cid.index", func(out *os.File) error {
+			tmp := filepath.Join(dir, "tmp-g2c")
+			os.MkdirAll(tmp, 0o755)
+			b, err := compactindex36.NewBuilder(tmp, uint(len(t.Txs)), 1<<40)
+			if err != nil {
+				return err
+			}
+			defer b.Close()
+			for _, tx := range t.Txs {
+				v, err := cid36(tx.Cid)
+				if err != nil {
+					return err
+				}
+				if err := b.Insert(tx.Sig[:], v); err != nil {
+					return err
+				}
+			}
+			return b.Seal(ctx, out)
+		})
+		if err != nil {
+			r.R.Internal("legacy sig-to-cid: %v", err)
+			return
+		}
+		l := legacy{file: "legacy-sig-to-cid", full: full, empty: []string{cid.Undef.String()}}
+		for _, tx := range t.Txs {
+			l.keys = append(l.keys, tx.Sig.String())
+		}
+		l.open = func(rd indexes.ReaderAtCloser) (c13Lookup, func(), error) {
+			x, err := indexes.OpenWithReader_SigToCid(rd)
+			if err != nil {
+				return nil, nil, err
+			}
+			return func(i int) (string, error) {
+				if i < 0 {
+					return fmt.Sprintf("legacy=%v", x.IsDeprecatedOldVersion()), nil
+				}
+				c, err := x.Get(t.Txs[i].Sig)
+				if err != nil {
+					return "", err
+				}
+				return c.String(), nil
+			}, func() { x.Close() }, nil
+		}
+		all = append(all, l)
+	}
+	{ // cid-to-offset, compactindex (8-byte values)
+		full, err := seal("legacy-cid-to-offset.index", func(out *os.File) error {
+			tmp := filepath.Join(dir, "tmp-c2o")
+			os.MkdirAll(tmp, 0o755)
+			b, err := compactindex.NewBuilder(tmp, uint(len(t.Objects)), uint64(len(t.Bytes)))
+			if err != nil {
+				return err
+			}
+			defer b.Close()
+			for _, o := range t.Objects {
+				if err := b.Insert(o.Cid.Bytes(), o.Offset); err != nil {
+					return err
+				}
+			}
+			return b.Seal(ctx, out)
+		})
+		if err != nil {
+			r.R.Internal("legacy cid-to-offset: %v", err)
+			return
+		}
+		l := legacy{file: "legacy-cid-to-offset", full: full, empty: []string{"0"}}
+		for _, o := range t.Objects {
+			l.keys = append(l.keys, o.Cid.String())
+		}
+		l.open = func(rd indexes.ReaderAtCloser) (c13Lookup, func(), error) {
+			x, err := indexes.Deprecated_OpenWithReader_CidToOffset(rd)
+			if err != nil {
+				return nil, nil, err
+			}
+			return func(i int) (string, error) {
+				if i < 0 {
+					return "opened", nil
+				}
+				off, err := x.Get(t.Objects[i].Cid)
+				if err != nil {
+					return "", err
+				}
+				return fmt.Sprint(off), nil
+			}, func() { x.Close() }, nil
+		}
+		all = append(all, l)
+	}
+	{ // sig-exists, deprecated bucketteer
+		p := filepath.Join(dir, "legacy-sig-exists.index")
+		wr, err := deprecatedbucketteer.NewWriter(p)
+		if err != nil {
+			r.R.Internal("legacy sig-exists: %v", err)
+			return
+		}
+		for _, tx := range t.Txs {
+			wr.Put(tx.Sig)
+		}
+		if _, err := wr.Seal(map[string]string{"epoch": fmt.Sprint(t.Epoch)}); err != nil {
+			r.R.Internal("legacy sig-exists: %v", err)
+			return
+		}
+		wr.Close()
+		l := legacy{file: "legacy-sig-exists", full: c13MustRead(p), empty: []string{"false"}}
+		for _, tx := range t.Txs {
+			l.keys = append(l.keys, tx.Sig.String())
+		}
+		l.open = func(rd indexes.ReaderAtCloser) (c13Lookup, func(), error) {
+			x, err := deprecatedbucketteer.NewReader(rd)
+			if err != nil {
+				return nil, nil, err
+			}
+			return func(i int) (string, error) {
+				if i < 0 {
+					return "epoch=" + x.GetMeta("epoch"), nil
+				}
+				has, err := x.Has(t.Txs[i].Sig)
+				return fmt.Sprint(has), err
+			}, func() { x.Close() }, nil
+		}
+		if len(l.full) >= 4 {
+			h := 4 + int(binary.LittleEndian.Uint32(l.full[0:4]))
+			if h > len(l.full) {
+				h = len(l.full)
+			}
+			l.regs = []c13Region{{h, "header"}, {len(l.full), "buckets"}}
+		}
+		all = append(all, l)
+	}
+	for _, l := range all {
+		size := len(l.full)
+		if l.regs == nil {
+			l.regs = []c13Region{{size, "file"}}
+		}
+		lk, closer, err := l.open(&c13Cut{b: l.full, limit: int64(size)})
+		if err != nil {
+			r.R.Internal("complete %s does not open: %v", l.file, err)
+			return
+		}
+		refMeta, _ := lk(-1)
+		refs := make([]string, len(l.keys))
+		for i := range l.keys {
+			v, err := lk(i)
+			if err != nil {
+				r.R.Internal("complete %s does not answer key %s: %v", l.file, l.keys[i], err)
+				return
+			}
+			refs[i] = v
+		}
+		closer()
+		r.R.Bounds["size:"+l.file] = size
+		r.R.Bounds["keys:"+l.file] = len(l.keys)
+		cuts := c13AllCuts(size, false)
+		if size > 64<<10 { // not expected for these small indexes
+			set := map[int]bool{}
+			for c := 0; c <= size; c += 97 {
+				set[c] = true
+			}
+			for _, g := range l.regs {
+				c13Around(set, size, g.end)
+			}
+			cuts = c13Sorted(set, false)
+		}
+		for _, cut := range cuts {
+			if !r.take("legacy-readerat", l.file, cut) {
+				continue
+			}
+			rc := &c13Cut{b: l.full, limit: int64(cut)}
+			r.openAndLookup("legacy-readerat", l.file, "legacy.OpenWithReader", cut, size, l.regs, l.keys, refs, refMeta, l.empty,
+				func() (c13Lookup, func(), error) { return l.open(rc) })
+		}
 	}
 }
 
@@ -1116,7 +1386,13 @@ func (r *c13Run) sectionCar(w *c13World) {
 			r.R.Internal("%v", err)
 			return
 		}
-		cfg := w.A.writeConfig(vkConfigOpts{Name: "c13-car-local", CarURI: p, NoGsfa: true})
+		rpcs := c13RPCs(w)
+		rpcRef, err := r.rpcReference(w, nil, rpcs)
+		if err != nil {
+			r.R.Internal("%v", err)
+			return
+		}
+		cfg := w.A.writeConfig(vkConfigOpts{Name: "c13-car-local", CarURI: p})
 		for _, cut := range c13AllCuts(size, true) {
 			if !r.take("car-local", "car", cut) {
 				continue
@@ -1142,6 +1418,10 @@ func (r *c13Run) sectionCar(w *c13World) {
 				continue
 			}
 			r.carObjects("car-local", "Epoch(local-car)", cut, size, regs, t, ep)
+			r.rpcAll(func(key string) c13Case {
+				return c13Case{Section: "car-local", File: "car", Cut: cut, Key: key, Size: size}
+			},
+				c13RegionOf(regs, cut), ep, "one-epoch", newMultiEpochHandler(vkNewMulti(2, ep), nil), rpcs, rpcRef)
 			ep.Close()
 			if cut%997 == 0 {
 				r.R.Sample(c13Case{Section: "car-local", File: "car", Cut: cut, Size: size, Key: "every object CID"})
@@ -1215,60 +1495,66 @@ func (r *c13Run) sectionCar(w *c13World) {
 		}
 		names := []string{"first-piece", "middle-piece", "last-piece"}
 		labels := []string{"car-split-inner-piece", "car-split-inner-piece", "car-split-last-piece"}
-		for pi := range pieces {
-			whole := append(append([]byte{}, pieces[pi].hdr...), pieces[pi].content...)
-			psize := len(whole)
-			pregs := []c13Region{{len(pieces[pi].hdr), "piece-header"}, {psize, "piece-content"}}
-			r.R.Bounds["size:car-split-"+names[pi]] = psize
-			for _, cut := range c13AllCuts(psize, false) {
-				if !r.take("car-split-"+names[pi], labels[pi], cut) {
-					continue
+		for _, httpLike := range []bool{false, true} {
+			for pi := range pieces {
+				whole := append(append([]byte{}, pieces[pi].hdr...), pieces[pi].content...)
+				psize := len(whole)
+				label, sect := labels[pi], "car-split-"+names[pi]
+				if httpLike {
+					label, sect = label+"(http-like-reader)", sect+"-httplike"
 				}
-				var scr *splitcarfetcher.SplitCarReader
-				oo := c13Do(func() (string, error) {
-					var err error
-					scr, err = splitcarfetcher.NewSplitCarReader(meta, func(cf carlet.CarFile) (splitcarfetcher.ReaderAtCloserSize, error) {
-						for i := range meta.CarPieces {
-							if meta.CarPieces[i].Name == cf.Name {
-								b := append(append([]byte{}, pieces[i].hdr...), pieces[i].content...)
-								lim := len(b)
-								if i == pi {
-									lim = cut
-								}
-								return &c13Cut{b: b, limit: int64(lim)}, nil
-							}
-						}
-						return nil, fmt.Errorf("unknown piece")
-					})
-					if err != nil {
-						return "", err
+				pregs := []c13Region{{len(pieces[pi].hdr), "piece-header"}, {psize, "piece-content"}}
+				r.R.Bounds["size:car-split-"+names[pi]] = psize
+				for _, cut := range c13AllCuts(psize, false) {
+					if !r.take(sect, label, cut) {
+						continue
 					}
-					return "opened", nil
-				})
-				cs := c13Case{Section: "car-split-" + names[pi], File: labels[pi], Cut: cut, Key: "<open>", Size: psize}
-				r.judge(cs, "NewSplitCarReader.open", c13RegionOf(pregs, cut), "opened", oo)
-				if scr == nil || oo.pan != "" {
-					continue
-				}
-				ep.localCarReader = nil
-				ep.remoteCarReader = scr
-				ep.carHeaderSize = t.HeaderLen
-				ep.allCache = c13NewCache()
-				region := c13RegionOf(pregs, cut)
-				ctx := context.Background()
-				for i := range t.Objects {
-					o := &t.Objects[i]
-					out := c13Do(func() (string, error) {
-						data, err := ep.GetNodeByCid(ctx, o.Cid)
+					var scr *splitcarfetcher.SplitCarReader
+					oo := c13Do(func() (string, error) {
+						var err error
+						scr, err = splitcarfetcher.NewSplitCarReader(meta, func(cf carlet.CarFile) (splitcarfetcher.ReaderAtCloserSize, error) {
+							for i := range meta.CarPieces {
+								if meta.CarPieces[i].Name == cf.Name {
+									b := append(append([]byte{}, pieces[i].hdr...), pieces[i].content...)
+									lim := len(b)
+									if i == pi {
+										lim = cut
+									}
+									return &c13Cut{b: b, limit: int64(lim), httpLike: httpLike}, nil
+								}
+							}
+							return nil, fmt.Errorf("unknown piece")
+						})
 						if err != nil {
 							return "", err
 						}
-						if bytes.Equal(data, o.Data) {
-							return "stored-bytes", nil
-						}
-						return fmt.Sprintf("%d other bytes (sha %s)", len(data), vkit.Hash(data)), nil
+						return "opened", nil
 					})
-					r.judge(c13Case{Section: "car-split-" + names[pi], File: labels[pi], Cut: cut, Key: o.Cid.String(), Size: psize}, "Epoch(split-car).GetNodeByCid", region, "stored-bytes", out)
+					cs := c13Case{Section: sect, File: label, Cut: cut, Key: "<open>", Size: psize}
+					r.judge(cs, "NewSplitCarReader.open", c13RegionOf(pregs, cut), "opened", oo)
+					if scr == nil || oo.pan != "" {
+						continue
+					}
+					ep.localCarReader = nil
+					ep.remoteCarReader = scr
+					ep.carHeaderSize = t.HeaderLen
+					ep.allCache = c13NewCache()
+					region := c13RegionOf(pregs, cut)
+					ctx := context.Background()
+					for i := range t.Objects {
+						o := &t.Objects[i]
+						out := c13Do(func() (string, error) {
+							data, err := ep.GetNodeByCid(ctx, o.Cid)
+							if err != nil {
+								return "", err
+							}
+							if bytes.Equal(data, o.Data) {
+								return "stored-bytes", nil
+							}
+							return fmt.Sprintf("%d other bytes (sha %s)", len(data), vkit.Hash(data)), nil
+						})
+						r.judge(c13Case{Section: sect, File: label, Cut: cut, Key: o.Cid.String(), Size: psize}, "Epoch(split-car).GetNodeByCid", region, "stored-bytes", out)
+					}
 				}
 			}
 		}
@@ -1335,6 +1621,84 @@ func c13RPCAnswer(resp []byte) (class, val string) {
 	return "value", string(b)
 }
 
+// c13Call drives one JSON-RPC request through the handler in memory; a panic is recovered with its innermost repository frame.
+func c13Call(h func(*fasthttp.RequestCtx), body string) (resp []byte, pan, frame string) {
+	var req fasthttp.Request
+	req.Header.SetMethod("POST")
+	req.SetRequestURI("/")
+	req.Header.SetContentType("application/json")
+	req.SetBody([]byte(body))
+	var ctx fasthttp.RequestCtx
+	ctx.Init(&req, nil, nil)
+	func() {
+		defer func() {
+			if x := recover(); x != nil {
+				pan = fmt.Sprint(x)
+				frame = c13Frame()
+			}
+		}()
+		h(&ctx)
+	}()
+	return append([]byte{}, ctx.Response.Body()...), pan, frame
+}
+
+// rpcAll sends every prepared request and judges the answers against the complete epoch's answers.
+func (r *c13Run) rpcAll(cs func(key string) c13Case, region string, ep *Epoch, label string, h func(*fasthttp.RequestCtx), rpcs []c13RPC, rpcRef map[string]string) {
+	for _, q := range rpcs {
+		ep.allCache = c13NewCache()
+		resp, pan, frame := c13Call(h, q.body)
+		var out c13Out
+		api := "rpc[" + label + "]." + q.method
+		if pan != "" {
+			out.pan, out.frame = pan, frame
+			api = "rpc." + q.method // one key per crashing frame, whatever the number of loaded epochs
+		} else {
+			class, val := c13RPCAnswer(resp)
+			switch class {
+			case "error":
+				out.err = errors.New(val)
+			case "not-found":
+				out.err = fmt.Errorf("not found: %s", val)
+			default:
+				out.val = val
+			}
+		}
+		r.judge(cs(q.method+" "+q.key), api, region, rpcRef[label+"|"+q.method+"|"+q.key], out, "null", "[]", "{}", "0", "")
+	}
+}
+
+// rpcReference: the complete epoch's answers (alone and, when epB != nil, next to epoch B).
+func (r *c13Run) rpcReference(w *c13World, epB *Epoch, rpcs []c13RPC) (map[string]string, error) {
+	cfg := w.A.writeConfig(vkConfigOpts{Name: "c13-full"})
+	ep, err := vkLoadEpoch(cfg, c13NewCache())
+	if err != nil {
+		return nil, fmt.Errorf("load A: %v", err)
+	}
+	defer ep.Close()
+	ref := map[string]string{}
+	for _, two := range []bool{false, true} {
+		label := "one-epoch"
+		eps := []*Epoch{ep}
+		if two {
+			if epB == nil {
+				continue
+			}
+			label = "two-epochs"
+			eps = append(eps, epB)
+		}
+		h := newMultiEpochHandler(vkNewMulti(2, eps...), nil)
+		for _, q := range rpcs {
+			resp, pan, _ := c13Call(h, q.body)
+			class, val := c13RPCAnswer(resp)
+			if pan != "" || class != "value" {
+				return nil, fmt.Errorf("complete epoch [%s]: %s(%s) -> %s %s (panic %v)", label, q.method, q.key, class, c13Short(val), pan)
+			}
+			ref[label+"|"+q.method+"|"+q.key] = val
+		}
+	}
+	return ref, nil
+}
+
 type c13Role struct {
 	role  string // config key
 	file  string // file kind label
@@ -1348,8 +1712,6 @@ func (r *c13Run) sectionEpoch(w *c13World) {
 	ctx := context.Background()
 	rpcs := c13RPCs(w)
 	// reference: the complete epoch (alone, and next to epoch B)
-	w.A.writeConfig(vkConfigOpts{Name: "c13-full"})
-	fullCfg := w.A.ConfigPath
 	w.B.writeConfig(vkConfigOpts{Name: "c13-B"})
 	epB, err := vkLoadEpoch(w.B.ConfigPath, c13NewCache())
 	if err != nil {
@@ -1362,7 +1724,6 @@ func (r *c13Run) sectionEpoch(w *c13World) {
 		r.R.Internal("%v", err)
 		return
 	}
-	rpcRef := map[string]string{}
 	run := func(ep *Epoch, two bool, f func(label string, h func(*fasthttp.RequestCtx))) {
 		label := "one-epoch"
 		eps := []*Epoch{ep}
@@ -1372,25 +1733,10 @@ func (r *c13Run) sectionEpoch(w *c13World) {
 		}
 		f(label, newMultiEpochHandler(vkNewMulti(2, eps...), nil))
 	}
-	{
-		ep, err := vkLoadEpoch(fullCfg, c13NewCache())
-		if err != nil {
-			r.R.Internal("load A: %v", err)
-			return
-		}
-		for _, two := range []bool{false, true} {
-			run(ep, two, func(label string, h func(*fasthttp.RequestCtx)) {
-				for _, q := range rpcs {
-					_, resp, pan := vkRPC(h, q.body)
-					class, val := c13RPCAnswer(resp)
-					if pan != nil || class != "value" {
-						r.R.Internal("complete epoch [%s]: %s(%s) -> %s %s (panic %v)", label, q.method, q.key, class, c13Short(val), pan)
-					}
-					rpcRef[label+"|"+q.method+"|"+q.key] = val
-				}
-			})
-		}
-		ep.Close()
+	rpcRef, err := r.rpcReference(w, epB, rpcs)
+	if err != nil {
+		r.R.Internal("%v", err)
+		return
 	}
 	mkAll := func(full []byte) (map[int]bool, []c13Region) {
 		set := map[int]bool{}
@@ -1546,26 +1892,7 @@ func (r *c13Run) sectionEpoch(w *c13World) {
 			// JSON-RPC through the real handler
 			for _, two := range []bool{false, true} {
 				run(ep, two, func(label string, h func(*fasthttp.RequestCtx)) {
-					for _, q := range rpcs {
-						ep.allCache = c13NewCache()
-						_, resp, pan := vkRPC(h, q.body)
-						var out c13Out
-						if pan != nil {
-							out.pan = fmt.Sprint(pan)
-							out.frame = "handler:" + q.method
-						} else {
-							class, val := c13RPCAnswer(resp)
-							switch class {
-							case "error":
-								out.err = errors.New(val)
-							case "not-found":
-								out.err = fmt.Errorf("not found: %s", val)
-							default:
-								out.val = val
-							}
-						}
-						r.judge(cs(q.key), "rpc["+label+"]."+q.method, region, rpcRef[label+"|"+q.method+"|"+q.key], out, "null", "[]", "{}", "0", "")
-					}
+					r.rpcAll(cs, region, ep, label, h, rpcs, rpcRef)
 				})
 			}
 			ep.Close()
@@ -1611,7 +1938,7 @@ func TestVerif_C13(t *testing.T) {
 		name string
 		f    func(*c13World)
 	}{
-		{"compact", run.sectionCompact}, {"sigexists", run.sectionSigExists}, {"blocktime", run.sectionBlocktime},
+		{"compact", run.sectionCompact}, {"legacy", run.sectionLegacy}, {"sigexists", run.sectionSigExists}, {"blocktime", run.sectionBlocktime},
 		{"gsfa", run.sectionGsfa}, {"car", run.sectionCar}, {"epoch", run.sectionEpoch},
 	}
 	only := os.Getenv("C13_ONLY")
